@@ -535,6 +535,8 @@ def compare(agg, log, model, known_tokens, expect=None):
         if mp != "-":
             for tok in mp.split(","):
                 agg.mapping[tok.rsplit(":", 1)[0] + (" (large designs)" if big else "")] += 1
+        if big:
+            agg.nlarge = getattr(agg, 'nlarge', 0) + 1
         if big and len(agg.large) < 400:
             agg.large.append(f"{kv['id']} dev={kv['dev']} type={kv['type']} {kv['depth']}x{kv['width']} lat={kv['lat']}->L={cs['hdr']['L']} ports={kv['ports']} init={kv['init']} clk={kv['clk']} map={mp}")
         st = collections.Counter()
@@ -824,7 +826,7 @@ def main():
                              "(createDepthSplitMemories / createWidthSplitMemories); prim:<X> = external primitive X instantiated; prop:<X> = 'primitive' "
                              "property of the memory entity (pattern that applied; vhdl = generic Memory2VHDLPattern); node_memory = Node_Memory nodes left")
     cov["large_designs"] = agg.large[:60]
-    cov["large_designs_total"] = len(agg.large)
+    cov["large_designs_total"] = getattr(agg, "nlarge", 0)
     cov["event_histogram"] = dict(agg.stats)
     cov["rejected_by_design_rule"] = dict(agg.rej)
     cov["known_finding_hits"] = collections.Counter(t for t, _, _ in agg.known)
